@@ -618,6 +618,9 @@ func (g *gctx) stmt() (*Stmt, bool) {
 				return st, false
 			}
 		}
+		if g.o.Arrays && g.chance(25, "copystoreidiom") {
+			return g.copyStoreIdiom(), false
+		}
 		return g.aliasIdiom(), false
 	}
 	if g.o.Arrays && len(g.loops) == 0 && g.ifDepth%100 == 0 && g.chance(4, "nestedarridiom") {
@@ -890,6 +893,76 @@ func (g *gctx) nestedArrayIdiom() *Stmt {
 	g.pending = append(g.pending, &Stmt{K: SDefine, Name: vb, E: e})
 	if g.fn.Name == "main" {
 		g.sink = append(g.sink, named{vb, g.top()[vb]})
+	}
+	return first
+}
+
+// copyStoreIdiom emits
+//
+//	vY := <dynamic> + <dynamic>
+//	[var vB [n]T; vB[i] = <dynamic> ...]   (unless an input array of T is in scope)
+//	vC := vB                               (a copy that aliases the wires of vB)
+//	vC[k] = vY                             (dynamic value into a dynamic array)
+//	vW := vC[k]                            (last use of the copy)
+//	vR := vW + ((vY * 3) ^ <dynamic>)      (last use of the stored value)
+//	vZ := vB[j] ^ vR                       (the old array is still live here)
+//
+// the shape in which a collector of dead values has to follow an alias chain
+// (vW -> vC -> vB and vY) whose liveness differs from step to step.
+func (g *gctx) copyStoreIdiom() *Stmt {
+	T := g.pickType("cstype")
+	var arrs []named
+	for _, nv := range g.visible() {
+		if nv.v.RO && nv.v.T.K == KArray && nv.v.T.E.Equal(T) && nv.v.T.N >= 2 {
+			arrs = append(arrs, nv)
+		}
+	}
+	y := g.fresh()
+	first := &Stmt{K: SDefine, Name: y, E: &Expr{Op: EBin, T: T, Name: "+", A: []*Expr{g.dynSource(T), g.dynSource(T)}}}
+	g.top()[y] = &varInfo{T: T, Dyn: true}
+	var b string
+	var AT Type
+	if len(arrs) > 0 && g.chance(60, "csparam") {
+		nv := arrs[g.intn(0, len(arrs)-1, "csarr")]
+		b, AT = nv.name, nv.v.T
+	} else {
+		AT = Array(g.intn(2, 5, "cslen"), T)
+		b = g.fresh()
+		g.top()[b] = &varInfo{T: AT, NoAssign: true}
+		g.pending = append(g.pending, &Stmt{K: SVar, Name: b, T: &AT})
+		for i := 0; i < AT.N; i++ {
+			g.pending = append(g.pending, &Stmt{K: SSetIndex, Name: b, Idx: i, E: g.dynSource(T)})
+		}
+	}
+	c := g.fresh()
+	g.top()[c] = &varInfo{T: AT, NoAssign: true}
+	g.pending = append(g.pending, &Stmt{K: SDefine, Name: c, E: &Expr{Op: EVar, T: AT, Name: b}})
+	k := g.intn(0, AT.N-1, "csidx")
+	g.pending = append(g.pending, &Stmt{K: SSetIndex, Name: c, Idx: k, E: &Expr{Op: EVar, T: T, Name: y}})
+	// Drawn before the following names exist in the scope.
+	other := g.dynSource(T)
+	w := g.fresh()
+	g.top()[w] = &varInfo{T: T, Dyn: true}
+	g.pending = append(g.pending, &Stmt{K: SDefine, Name: w,
+		E: &Expr{Op: EIndex, T: T, Idx: k, A: []*Expr{{Op: EVar, T: AT, Name: c}}}})
+	three := "3"
+	if T.N < 3 {
+		three = "1"
+	}
+	r := g.fresh()
+	g.top()[r] = &varInfo{T: T, Dyn: true}
+	g.pending = append(g.pending, &Stmt{K: SDefine, Name: r, E: &Expr{Op: EBin, T: T, Name: "+", A: []*Expr{
+		{Op: EVar, T: T, Name: w},
+		{Op: EBin, T: T, Name: "^", A: []*Expr{
+			{Op: EBin, T: T, Name: "*", A: []*Expr{{Op: EVar, T: T, Name: y}, {Op: ELit, T: T, Val: three}}},
+			other}}}}})
+	z := g.fresh()
+	g.top()[z] = &varInfo{T: T, Dyn: true}
+	g.pending = append(g.pending, &Stmt{K: SDefine, Name: z, E: &Expr{Op: EBin, T: T, Name: "^", A: []*Expr{
+		{Op: EIndex, T: T, Idx: g.intn(0, AT.N-1, "csold"), A: []*Expr{{Op: EVar, T: AT, Name: b}}},
+		{Op: EVar, T: T, Name: r}}}})
+	if g.fn.Name == "main" && g.ifDepth%100 == 0 {
+		g.sink = append(g.sink, named{z, g.top()[z]})
 	}
 	return first
 }
